@@ -1253,32 +1253,37 @@ def check_count(run: Run, prog: Program) -> None:  # noqa: C901
                   "get_timestamp(i) is not oldest + i periods for i >= 0 / one past the newest + i periods for i < 0 "
                   "(None on an empty buffer): index queries address other slots than the covered ones",
                   **_where(gt, p))
-    # ---- covered range and counts
-    cr = prog.func(q + "_covered_time_range")
-    run.analysed(cr.qual)
-    for p in ordered_paths(prog, cr, inline=False):
-        if p.exit != "return":
-            continue
-        some = truth(p, "self.oldest_timestamp")
-        if some is None and none_test(p, "self.oldest_timestamp") is not None:
-            some = not none_test(p, "self.oldest_timestamp")
-        ok = (some is False and u(p.ret) in ("timedelta(0)", "timedelta()", "timedelta(seconds=0)")) or (
-            some is True and _same(p.ret, f"self.newest_timestamp - self.oldest_timestamp + {STEP}"))
-        run.check(ok, "C09.COUNT", cr.qual, f"return {u(p.ret)[:70]}",
-                  "the covered range is not newest - oldest + one period (zero on an empty buffer)", **_where(cr, p))
+    # ---- covered range and counts (the range helper is read at its call site: it may be renamed or inlined)
     cc = prog.func(q + "count_covered")
     run.analysed(cc.qual)
-    for p in ordered_paths(prog, cc, inline=False):
+    if prog.has_func(q + "_covered_time_range"):
+        run.analysed(q + "_covered_time_range")
+    n = 0
+    for p in ordered_paths(prog, cc):
         if p.exit != "return":
             continue
+        n += 1
         r = p.ret
         if isinstance(r, ast.Call) and u(r.func) == "int" and len(r.args) == 1:
             r = r.args[0]
-        ok = isinstance(r, ast.BinOp) and isinstance(r.op, ast.FloorDiv) and (
-            (u(r.left), u(r.right)) in (("self._covered_time_range().total_seconds()", f"{STEP}.total_seconds()"),
-                                        ("self._covered_time_range()", STEP)))
+        ok = isinstance(r, ast.BinOp) and isinstance(r.op, ast.FloorDiv)
+        if ok:
+            num, den = r.left, r.right  # type: ignore[union-attr]
+            secs = lambda x: isinstance(x, ast.Call) and isinstance(x.func, ast.Attribute) \
+                and x.func.attr == "total_seconds" and not x.args  # noqa: E731
+            if secs(num) and secs(den):
+                num, den = num.func.value, den.func.value  # type: ignore[union-attr]
+            some = truth(p, "self.oldest_timestamp")
+            if some is None and none_test(p, "self.oldest_timestamp") is not None:
+                some = not none_test(p, "self.oldest_timestamp")
+            ok = u(den) == STEP and (
+                (some is False and u(num) in ("timedelta(0)", "timedelta()", "timedelta(seconds=0)"))
+                or (some is True and _same(num, f"self.newest_timestamp - self.oldest_timestamp + {STEP}")))
         run.check(ok, "C09.COUNT", cc.qual, f"return {u(p.ret)[:70]}",
-                  "count_covered is not the covered range in sampling periods", **_where(cc, p))
+                  "count_covered is not the covered range, newest - oldest + one period (zero on an empty buffer), in "
+                  "sampling periods", **_where(cc, p))
+    if n < 2:
+        raise AnalysisError(f"{cc.qual}: only {n} returning paths")
     cv = prog.func(q + "count_valid")
     run.analysed(cv.qual)
     s_pos, e_pos = f"self.to_internal_index({OLDEST_F})", f"self.to_internal_index({NEWEST_F})"
